@@ -26,23 +26,29 @@ def verbose(msg, *args):
         info(msg, *args)
 
 
+def _printable(msg):
+    """paths may contain bytes that are not valid in the encoding of the file system (they arrive here as lone
+    surrogates), printing them must not abort the command"""
+    return str(msg).encode("utf-8", "surrogateescape").decode("utf-8", "replace")
+
+
 def info(msg, *args):
     """Logs a message to stdout."""
     if args:
         msg %= args
-    click.echo(msg, file=sys.stdout)
+    click.echo(_printable(msg), file=sys.stdout)
 
 
 def error(msg, *args):
     """Logs a message to stderr"""
     if args:
         msg %= args
-    click.echo(click.style(msg, fg="red", bold=True), file=sys.stderr)
+    click.echo(click.style(_printable(msg), fg="red", bold=True), file=sys.stderr)
 
 
 def fatal(msg, *args):
     """Logs a message to stderr, then exits"""
     if args:
         msg %= args
-    click.echo(click.style(msg, fg="red", bold=True, blink=True), file=sys.stderr)
+    click.echo(click.style(_printable(msg), fg="red", bold=True, blink=True), file=sys.stderr)
     click.get_current_context().abort()
